@@ -83,21 +83,21 @@ func (w *c16Wallet) DeriveNextKey(context.Context, int32) (*keychain.KeyDescript
 
 // c16Keys holds everything that is fixed for a harness run.
 type c16Keys struct {
-	signer    *c16Signer
-	provPriv  *btcec.PrivateKey
-	provPub   *btcec.PublicKey
-	provLoc   keychain.KeyLocator
-	nodePub   *btcec.PublicKey
-	msPub     *btcec.PublicKey
-	baseID    [8]byte
-	otherID   [8]byte
-	bidNonce  order.Nonce
-	otherNon  [32]byte
-	acct      *account.Account
-	terms     *terms.AuctioneerTerms
-	offered   []byte // serialized offered ticket (id 0), order nonce set
-	capacity  btcutil.Amount
-	badSig    *ecdsa.Signature
+	signer   *c16Signer
+	provPriv *btcec.PrivateKey
+	provPub  *btcec.PublicKey
+	provLoc  keychain.KeyLocator
+	nodePub  *btcec.PublicKey
+	msPub    *btcec.PublicKey
+	baseID   [8]byte
+	otherID  [8]byte
+	bidNonce order.Nonce
+	otherNon [32]byte
+	acct     *account.Account
+	terms    *terms.AuctioneerTerms
+	offered  []byte // serialized offered ticket (id 0), order nonce set
+	capacity btcutil.Amount
+	badSig   *ecdsa.Signature
 }
 
 func newC16Keys() *c16Keys {
@@ -307,13 +307,13 @@ type c16Gen struct {
 }
 
 type c16Side struct {
-	w    *c16World
-	prov bool
-	db   *clientdb.DB
-	neg  *pool.SidecarNegotiator
-	gen  *c16Gen
+	w          *c16World
+	prov       bool
+	db         *clientdb.DB
+	neg        *pool.SidecarNegotiator
+	gen        *c16Gen
 	registered bool // entry in SidecarAcceptor.negotiators
-	afterErr int32
+	afterErr   int32
 	// scripted answers (single-step tests); nil = the real driver
 	script *c16Script
 }
@@ -668,8 +668,8 @@ func (w *c16World) storedOrderDB() *clientdb.DB {
 
 func newC16World(r *Run, k *c16Keys) *c16World {
 	w := &c16World{r: r, k: k, dir: c16Tmp, pendingR: map[[32]byte]*sidecar.Ticket{},
-		writes: map[string][]uint8{},
-		inCh:   map[string]chan c16Msg{"0": make(chan c16Msg), "1": make(chan c16Msg)},
+		writes:  map[string][]uint8{},
+		inCh:    map[string]chan c16Msg{"0": make(chan c16Msg), "1": make(chan c16Msg)},
 		waiting: map[string]*int32{"0": new(int32), "1": new(int32)}}
 	w.p = &c16Side{w: w, prov: true}
 	w.rc = &c16Side{w: w, prov: false}
@@ -739,9 +739,10 @@ func c16Goroutines() []c16G {
 }
 
 const (
-	c16ProvMain = "github.com/lightninglabs/pool.(*SidecarNegotiator).autoSidecarProvider("
-	c16RecvMain = "github.com/lightninglabs/pool.(*SidecarNegotiator).autoSidecarReceiver("
-	c16TExec    = "github.com/lightninglabs/pool.(*SidecarNegotiator).TicketExecuted("
+	c16ProvMain   = "github.com/lightninglabs/pool.(*SidecarNegotiator).autoSidecarProvider("
+	c16RecvMain   = "github.com/lightninglabs/pool.(*SidecarNegotiator).autoSidecarReceiver("
+	c16TExec      = "github.com/lightninglabs/pool.(*SidecarNegotiator).TicketExecuted("
+	c16StepPrefix = "github.com/lightninglabs/pool.(*SidecarNegotiator).stateStep"
 )
 
 // parked reports whether the main loop of the side is parked in its select
@@ -754,7 +755,10 @@ func (w *c16World) parked(prov bool) (quiet, alive bool) {
 	}
 	quiet = true
 	for _, g := range c16Goroutines() {
-		if strings.Contains(g.body, c16TExec) && !strings.Contains(g.body, "main.(*c16World)") {
+		if (strings.Contains(g.body, c16TExec) && !strings.Contains(g.body, "main.(*c16World)")) ||
+			strings.Contains(g.body, "created by "+c16StepPrefix) {
+			// (a goroutine spawned by a step function that has not run yet
+			// still shows only its go-wrapper frame)
 			// an internally spawned TicketExecuted (the harness's own
 			// synchronous calls are excluded)
 			quiet = false
